@@ -159,6 +159,14 @@ func (svc *service) peekMessageSize() (message.Type, int, error) {
 	// Total message length is remlen + 1 (msg type) + m (remlen bytes)
 	total := int(remlen) + 1 + m
 
+	// The receiver needs one free read block in the buffer to make progress. A
+	// message that does not leave that much room can block receiver (waiting for
+	// space) and processor (waiting for the rest of the message) on each other
+	// for ever, so it is refused.
+	if int64(total) > svc.in.size-defaultReadBlockSize {
+		return 0, 0, fmt.Errorf("sendrecv/peekMessageSize: Message of %d bytes exceeds the maximum of %d bytes", total, svc.in.size-defaultReadBlockSize)
+	}
+
 	mtype := message.Type(b[0] >> 4)
 
 	return mtype, total, err
